@@ -218,36 +218,39 @@ def controlEscape (c : Char) (next : Option Char) : Str :=
     | some n => if isAsciiHexDigit n || n = ' ' || n = '\t' then [' '] else []
     | none => [])
 
-/-- Body loop of `visit_quoted_string` (serializer.rs:858-905).  `none` = the loop hit the other
-    kind of quote and the function restarts with `force_double_quote = true`.
-    Result: (escaped body, has_double_quote). -/
-def quoteLoop (force : Bool) : (hasSingle hasDouble : Bool) → Str → Option (Str × Bool)
-  | _, hd, [] => some ([], hd)
+/-- Bytes pushed for one character by the loop of `visit_quoted_string` (serializer.rs:860-903);
+    `next` is the peeked following character. -/
+def escChar (force : Bool) (c : Char) (next : Option Char) : Str :=
+  if c = '\'' then ['\'']
+  else if c = '"' then (if force then ['\\', '"'] else ['"'])
+  else if isEscapedControl c then controlEscape c next
+  else if c = '\\' then ['\\', '\\']
+  else [c]
+
+/-- The local `buffer` of `visit_quoted_string` after the loop ran over the whole string. -/
+def escBody (force : Bool) : Str → Str
+  | [] => []
+  | c :: cs => escChar force c cs.head? ++ escBody force cs
+
+/-- The flag bookkeeping of the same loop when `force_double_quote = false`
+    (`has_single_quote`, `has_double_quote`): `none` = the loop met the second kind of quote and
+    the function restarts with `force_double_quote = true` (the buffer built so far is dropped);
+    `some hd` = it ran to the end with `has_double_quote = hd`.
+    (The Rust loop interleaves this with `escBody`; the two do not influence each other.) -/
+def quoteFlags : (hasSingle hasDouble : Bool) → Str → Option Bool
+  | _, hd, [] => some hd
   | hs, hd, c :: cs =>
-    if c = '\'' then
-      if force then (quoteLoop force hs hd cs).map (fun r => ('\'' :: r.1, r.2))
-      else if hd then none
-      else (quoteLoop force true hd cs).map (fun r => ('\'' :: r.1, r.2))
-    else if c = '"' then
-      if force then (quoteLoop force hs hd cs).map (fun r => ('\\' :: '"' :: r.1, r.2))
-      else if hs then none
-      else (quoteLoop force hs true cs).map (fun r => ('"' :: r.1, r.2))
-    else if isEscapedControl c then
-      (quoteLoop force hs hd cs).map (fun r => (controlEscape c cs.head? ++ r.1, r.2))
-    else if c = '\\' then
-      (quoteLoop force hs hd cs).map (fun r => ('\\' :: '\\' :: r.1, r.2))
-    else (quoteLoop force hs hd cs).map (fun r => (c :: r.1, r.2))
+    if c = '\'' then (if hd then none else quoteFlags true hd cs)
+    else if c = '"' then (if hs then none else quoteFlags hs true cs)
+    else quoteFlags hs hd cs
 
 /-- `visit_quoted_string(false, s)` (serializer.rs:848). -/
 def quote (s : Str) : Str :=
-  match quoteLoop false false false s with
-  | some (body, hasDouble) =>
+  match quoteFlags false false s with
+  | some hasDouble =>
     let q := if hasDouble then '\'' else '"'
-    q :: body ++ [q]
-  | none =>
-    match quoteLoop true false false s with
-    | some (body, _) => '"' :: body ++ ['"']
-    | none => []   -- unreachable: the forced loop never restarts (`quoteLoop_force_isSome`)
+    q :: escBody false s ++ [q]
+  | none => '"' :: escBody true s ++ ['"']
 
 def Atom.out : Atom → Str
   | .raw s => unquotedOut s
@@ -560,6 +563,35 @@ def wellFormed (out : Str) : Bool :=
 /-- A piece of text that the scanner reads from "normal" back to "normal" without changing depth. -/
 def neutral (s : Str) : Bool := run ⟨.normal, 0⟩ s = some ⟨.normal, 0⟩
 
+/-! Guard of `C05_blocks_balanced`: every opaque leaf text of the tree (selector, property name,
+    unquoted value text, query, at-rule name/parameters, import url/modifiers, comment — as
+    rendered) is read by the scanner from "normal" back to "normal" (balanced braces, closed strings
+    and comments).  Quoted strings are NOT constrained. -/
+def Atom.ok : Atom → Bool
+  | .raw s => neutral (unquotedOut s)
+  | .quoted _ => true
+
+def Value.ok : Value → Bool
+  | .atom a => a.ok
+  | .list _ items => items.all Atom.ok
+
+mutual
+def Stmt.leavesOk (st : Style) : Stmt → Bool
+  | .rule _ sel body => neutral (selectorOut st sel) && body.leavesOk st
+  | .decl name _ v => neutral name && v.ok
+  | .media _ qs body => neutral (joinWith (',' :: optSp st) (qs.map queryOut)) && body.leavesOk st
+  | .supports _ params body => neutral params && body.leavesOk st
+  | .unknown _ name params _ body => neutral name && neutral params && body.leavesOk st
+  | .kf sels body => neutral (joinWith (lit ", ") sels) && body.leavesOk st
+  | .comment text col => neutral (commentOut text col)
+  | .import url mods => neutral url && (match mods with | some m => neutral m | none => true)
+def Stmts.leavesOk (st : Style) : Stmts → Bool
+  | .nil => true
+  | .cons s ss => s.leavesOk st && ss.leavesOk st
+end
+
+def treeOk (st : Style) (t : List Stmt) : Bool := t.all (Stmt.leavesOk st)
+
 /-- P̂ (charset): the text starts with the `@charset` rule or with a BOM. -/
 def hasCharsetOrBom (out : Str) : Bool :=
   startsWith out charsetPrefix || out.head? = some bom
@@ -814,7 +846,7 @@ def sassFree (out : Str) : Bool :=
   | none => false
 
 /-- Driver entry.  Requests (after the `ser` token):
-    `print <e|c> <0|1> <tree…>`   → `ok <hex of serialize>` plus flags
+    `print <e|c> <0|1> <tree…>`   → `ok <hex of serialize> <wellFormed> <charsetOk> <treeOk guard> <sassFree>`
     `wf <hex>`                     → `ok <0|1>`   P̂ well-formedness of a text
     `charset <0|1> <hex>`          → `ok <0|1>`   P̂ charset rule
     `sassfree <hex>`               → `ok <0|1>`
@@ -825,7 +857,8 @@ def handle : List String → String
     match parseStyle st, parseBool? cs, parseTree tree with
     | some st, some cs, some t =>
       let out := serialize st cs t
-      "ok " ++ outHex out ++ " " ++ boolStr (wellFormed out) ++ " " ++ boolStr (charsetOk cs out)
+      "ok " ++ outHex out ++ " " ++ boolStr (wellFormed out) ++ " " ++ boolStr (charsetOk cs out) ++ " " ++
+        boolStr (treeOk st t) ++ " " ++ boolStr (sassFree out)
     | _, _, _ => "bad-op"
   | ["wf", h] =>
     match hexStr h with
